@@ -199,6 +199,7 @@ def obligations(S, N=3, LOOP=8):
             if p.outcome.kind != "ret":
                 mk(f"C18:Vec::get_value:{p.outcome.kind}", ["C18", "C04"], p, z3.BoolVal(False), ex, {"msg": p.outcome.msg, "n": n})
                 continue
+            mk("C04:Vec::get_value:path-ends-in-return", ["C04"], p, z3.BoolVal(True), ex, {"n": n})
             v = V(ex, p.st)
             r = p.outcome.value
             in_range = lambda i: z3.Or(key == z3.BitVecVal(i, 64), key == z3.BitVecVal(i - n, 64))
@@ -223,6 +224,7 @@ def obligations(S, N=3, LOOP=8):
             if p.outcome.kind != "ret":
                 mk(f"C18:Vec::insert_value:{p.outcome.kind}", ["C18", "C04"], p, z3.BoolVal(False), ex, {"msg": p.outcome.msg, "n": n})
                 continue
+            mk("C04:Vec::insert_value:path-ends-in-return", ["C04"], p, z3.BoolVal(True), ex, {"n": n})
             ks = unique_key(ex, p, key)
             if ks is None or len(ks) != 1:
                 mk("C18:Vec::insert_value:path-determines-index", ["C18"], p, z3.BoolVal(False), ex, {"keys": ks, "n": n})
@@ -280,6 +282,7 @@ def obligations(S, N=3, LOOP=8):
             if p.outcome.kind != "ret":
                 mk(f"C18:Vec::remove_value:{p.outcome.kind}", ["C18", "C04"], p, z3.BoolVal(False), ex, {"msg": p.outcome.msg, "n": n})
                 continue
+            mk("C04:Vec::remove_value:path-ends-in-return", ["C04"], p, z3.BoolVal(True), ex, {"n": n})
             v = V(ex, p.st)
             r = p.outcome.value
             new = p.st.heap["arr"].items
